@@ -7,8 +7,6 @@ From SopVerif Require Import Proto HandleProto HandleProtoProofs.
 Import ListNotations.
 Local Open Scope N_scope.
 
-Definition wkind_eqb (a b : wkind) : bool :=
-  match a, b with WClaim, WClaim | WMark, WMark | WFlip, WFlip | WTouch, WTouch | WUndo, WUndo | WRestore, WRestore => true | _, _ => false end.
 Fixpoint list_eqb {A} (f : A -> A -> bool) (a b : list A) : bool :=
   match a, b with
   | [], [] => true
